@@ -10,6 +10,44 @@ _NOTE = ("Trusted base: the Python grammar/ast module; the canonicaliser (framel
          "numerical behaviour. assert is FRAME's rejection mechanism (python -O voids reject clauses).")
 
 CLAIMED = {
+    "C07": (
+        "Static decision of the encoder's structure: pseudoboolencoding posts a clause / asserts the diagram root / raises on "
+        "every path and the only silent path (tautology shortcut of isclause, found by path tabulation) is sound for both '>=' "
+        "and '>'; the one-directional Tseitin translation of a node (variable, THEN, ELSE) has the right polarity and children; "
+        "check-then-mark on per-instance state; the diagram store is append-only, keyed by the full triple, written only by "
+        "constructrobdd; pairwise and Heule at-most-one cover/partition the literals with opposite polarity of the fresh "
+        "variable; imply negates the antecedents; the Ineq operator table (CCP); leaf tests / if-else propagation duality of "
+        "both ROBDD constructions; solve/tocnf/value/evalexpr sign conventions agree. Not decided: the iff over all "
+        "assignments as a whole; solver behaviour.",
+        _NOTE, "CFG must-pass + CCP path tabulation + canonical-form LAW/TUPLE checks + who-writes", "DESIGN.md 6/C07"),
+    "C13": (
+        "Static decision that every write of a module position/centre in the layout is dominated by a not-fixed test of that "
+        "module, that each position update is capped by the temperature and followed by the clamp to the die on both axes, that "
+        "the layout writes nothing but centres (interprocedural effects), that trials run on deep copies, that no "
+        "nondeterminism source is reachable, and that the final layout uses the constant minimising overlap + wirelength/2 "
+        "(strict test, full list). Not decided: finiteness of coordinates under extreme forces.",
+        _NOTE, "dominating-guard facts + effect analysis + NONDET scan over the call graph + dataflow", "DESIGN.md 6/C13"),
+    "C14": (
+        "Static decision (typestate dataflow on the CFG) that the last writer of each coordinate vector at the end of a "
+        "dimension's iteration is normalize(); normalize scales exactly the movable entries by min(max_span/|x|) over movable "
+        "entries; fixed nodes are kept by the centroid step and orthogonalize; radius = sqrt(mass/pi), max_span = size/2 - "
+        "radius; Spectral.spectral_layout writes centres only for movable modules, re-centres only hard movable modules by a "
+        "rigid translation, and touches neither areas nor nets. Not applicable: convergence, the random start, round-off of "
+        "the scaling.",
+        _NOTE, "typestate dataflow + dominating-guard facts + effect analysis + canonical-form checks", "DESIGN.md 6/C14"),
+    "C16": (
+        "Static decision of the algebra's structure: __mul__ scales every coefficient and the constant (SCALE); the "
+        "opposite-polarity merge is the same-polarity merge of -c plus constant += c (LAW k*not l = k - k*l); zero-elimination "
+        "and sign normalisation follow every coefficient write in __add__ and __mul__; new terms are keyed by their own "
+        "variable; the Ineq operator table by partial evaluation; every comparison dunder of Literal/Term/Expr builds the "
+        "inequality of its own name; __sub__ negates. Not decided: semantic equality under all assignments as a whole.",
+        _NOTE, "canonical-form LAW/SCALE checks + CCP table + sibling agreement", "DESIGN.md 6/C16"),
+    "C17": (
+        "Static decision of totality only: both acos arguments are syntactically clamped to [-1, 1] (an exact-arithmetic case "
+        "split is not accepted as a floating-point guard); the far-apart and nested cases are decided first so that the "
+        "division by d is dominated by d > |r1 - r2| >= 0; the two angles mirror each other under r1<->r2; the caller passes "
+        "sqrt(area/pi). Not applicable to this family: symmetry, bounds and the 1e-5 accuracy (numerical).",
+        _NOTE, "DOMAIN rule on the AST + dominating-guard facts + path tabulation", "DESIGN.md 6/C17"),
     "C04": (
         "Static decision of the write->read round trip's structure: writer key set == reader key set; per-region areas are "
         "written as a mapping whenever a scalar would be lossy; the writer reads every document-derived field of Module, every "
@@ -90,7 +128,7 @@ CLAIMED = {
 _PENDING = "rule set under construction in this round (see DESIGN.md section 6 for the planned structural clauses)"
 
 NOT_APPLICABLE = {
-    "C07": _PENDING,
-    "C08": _PENDING, "C09": _PENDING, "C10": _PENDING, "C13": _PENDING, "C14": _PENDING,
-    "C15": _PENDING, "C16": _PENDING, "C17": _PENDING, "C20": _PENDING,
+    
+    "C08": _PENDING, "C09": _PENDING, "C10": _PENDING, 
+    "C15": _PENDING, "C20": _PENDING,
 }
